@@ -1,13 +1,29 @@
-"""what MANIFEST.json claims; kept next to the code so the two move together"""
-CHECKS = [
-    {'id': 'C06',
-     'text': 'Lean theorems: the enzymatic span builder equals the set specification for every n, site list, missed-cleavage bound and length bounds '
-             '(mem_buildEnzymatic); the hand-written model of spans.py/digest is tied to /repo by exhaustive correspondence (n<=5 quick, n<=7 thorough) '
-             'and the implementation is compared with the Lean set specification through the driver',
-     'note': 'trusted: Lean kernel, axioms propext/Classical.choice/Quot.sound, the correspondence harness, regex->sites (outside the model, compared with an independent reading of each named rule)',
-     'technique': 'Lean 4 proof about executable model + differential correspondence'},
-]
+"""what MANIFEST.json claims: collected from the REGISTRY literal of every harness/props/cXX.py (no imports needed)"""
+import ast
+import glob
+import os
+
+HERE = os.path.dirname(os.path.abspath(__file__))
+
+
+def _registry_of(path):
+    tree = ast.parse(open(path).read())
+    for node in tree.body:
+        if isinstance(node, ast.Assign) and any(getattr(t, 'id', None) == 'REGISTRY' for t in node.targets):
+            return ast.literal_eval(node.value)
+    return None
+
+
+CHECKS = []
+for _p in sorted(glob.glob(os.path.join(HERE, 'props', 'c[0-9][0-9].py'))):
+    _r = _registry_of(_p)
+    if _r:
+        CHECKS.append(_r)
+
+# properties without a registered check; reasons may be overridden in NOT_APPLICABLE_REASONS
+NOT_APPLICABLE_REASONS = {}
+_claimed = {c['id'] for c in CHECKS}
 NOT_APPLICABLE = [
-    {'property_id': f'C{i:02d}', 'reason': 'check not built yet in this revision (planned at level proof, see DESIGN.md)'}
-    for i in range(1, 21) if i not in (6,)
+    {'property_id': f'C{i:02d}', 'reason': NOT_APPLICABLE_REASONS.get(f'C{i:02d}', 'check not built yet in this revision (planned at level proof, see DESIGN.md)')}
+    for i in range(1, 21) if f'C{i:02d}' not in _claimed
 ]
